@@ -127,6 +127,16 @@ def rule3_fields(ctx, v):
     ctx.doc('C07.3', 'field agreement: wait and dec shift by n_threads_bits and mask with state_mask; init stores '
             'state_mask = (1 << b) - 1 and n_threads_bits = b for the same b = calc_bits(n_threads), n_threads = parameter, state = 0')
     i = ctx.need_fn(v, 'myth_join_counter_init_body')
+    # the packed word holds the decrement count (calc_bits(N) bits, N a long) and the waiter count above it: it is as wide as
+    # n_threads / state_mask, and every atomic update of it is done at that width (no truncating store of the 64-bit sum)
+    flds = dict((x['name'], x) for x in v.structs.get('myth_join_counter', {}).get('fields', []))
+    okw = all(k in flds for k in ('state', 'n_threads', 'state_mask')) and flds['state']['size'] == flds['n_threads']['size'] == flds['state_mask']['size'] == 8
+    ats = [x for n_ in ('myth_join_counter_wait_body', 'myth_join_counter_dec_body') for x in ctx.need_fn(v, n_).order
+           if x.op in ('cmpxchg', 'atomicrmw') and ctx.need_fn(v, n_).field(x) == 'myth_join_counter.state']
+    okw = okw and len(ats) >= 2 and all((x.ty or '').replace('{', '').strip().startswith('i64') or 'i64' in (x.ty or '') for x in ats)
+    ctx.ob('C07.3', 'the state word is 64 bits wide, like n_threads and state_mask', okw,
+           'waiters << bits plus the decrement count must fit: with a 32-bit word a counter for N >= 2^20 threads loses its waiters '
+           'after about a thousand of them, silently', loc=i.loc, detail='state: %s bytes' % (flds.get('state') or {}).get('size'))
     sb = i.stores_to(BITS)
     sm = i.stores_to(MASK)
     sn = i.stores_to(N)
@@ -205,6 +215,8 @@ def run(ctx):
 
 SYNC = 'src/myth_sync_func.h'
 MUTANTS = [
+    {'name': 'join counter state word narrowed to int (seed3 C07/m3)', 'expect': 'C07.3',
+     'edits': [('include/myth/myth.h', "    volatile long state;", "    volatile int state;")]},
     {'name': 'native myth_join_counter_dec forwards to wait', 'expect': 'C07.6',
      'edits': [('src/myth_if_native.c', "  return myth_join_counter_dec_body(jc);", "  return myth_join_counter_wait_body(jc);")]},
     {'name': 'wake chain links behind a NULL tail (sweep M0634)', 'expect': 'C07.5',
